@@ -136,3 +136,56 @@ func VerifC20ConfigApply() {
 		vrt.Assert("C18.apply.no-rollback-without-a-failed-reload", rollbacks == 0)
 	}
 }
+
+func hTrimASCII(s string) string {
+	sp := func(c byte) bool { return c == ' ' || c == '\t' || c == '\n' || c == '\v' || c == '\f' || c == '\r' }
+	i, j := 0, len(s)
+	for i < j && sp(s[i]) {
+		i++
+	}
+	for j > i && sp(s[j-1]) {
+		j--
+	}
+	return s[i:j]
+}
+
+// verif:harness props=C20 tier=quick native=yes weight=15
+// verif:bounds the audit arguments of every mutating tool (parseMutationAuditArgs, and parseManagementEndpointMutationArgs for the endpoint tools): configured principal from {empty, blank, ops, padded Op, o}; supplied actor any ASCII string of 0..3 symbolic bytes (thorough 4) or absent; reason present
+func VerifC20ActorMustEqualPrincipal() {
+	l := 3
+	if vrt.Thorough() {
+		l = 4
+	}
+	principal := []string{"", " ", "ops", " Op ", "o"}[vrt.Choose("principal", 5)]
+	actor := vrt.String("actor", l)
+	for i := 0; i < len(actor); i++ {
+		vrt.Assume(actor[i] < 0x80)
+	}
+	args := map[string]any{"reason": "because", "application": "billing", "endpoint_name": "invoices"}
+	if vrt.Bool("actor-supplied") {
+		args["actor"] = actor
+	} else {
+		actor = ""
+	}
+	tp, ta := hTrimASCII(principal), hTrimASCII(actor)
+	refuse := ta != "" && tp != "" && ta != tp
+	want := ta
+	if want == "" {
+		want = tp
+	}
+	var got string
+	var err error
+	if vrt.Bool("endpoint-tool") {
+		var r managementEndpointMutationRequest
+		r, err = parseManagementEndpointMutationArgs(args, false, principal)
+		got = r.Actor
+	} else {
+		var r mutationAuditArgs
+		r, err = parseMutationAuditArgs(args, principal)
+		got = r.Actor
+	}
+	vrt.Observe("refused", err != nil)
+	vrt.Assert("C20.actor.refused-iff-a-supplied-actor-differs-from-the-principal", (err != nil) == refuse)
+	ok := err != nil || got == want
+	vrt.Assert("C20.actor.recorded-actor-is-the-principal-or-the-equal-actor", ok)
+}
